@@ -1,56 +1,59 @@
-(* C18 - Code is found wherever it is loaded.  Statements only. *)
+(* C18 - Code is found wherever it is loaded.  Statements only (source at /repo HEAD 9f6d836). *)
 From BS Require Import Model.Base.
 From W Require Import ModelReloc ProofsReloc.
 Open Scope N_scope.
+
+(* HEADLINE.  A link-time address of ANY loaded image - PIE executable, non-PIE (ET_EXEC)
+   executable, shared library loaded at start or by dlopen - is relocated to exactly the
+   address it has in the process (bias = lowest mapping start - link base); the only error is
+   MappingOffsetNotFound for a file that is not mapped.  [image_ok] is the domain of the
+   specification: the image is mapped at or above its link base and g is one of its addresses. *)
+Theorem C18_relocate_exact : forall rg maps rg' es im g,
+  update_mappings rg false maps = Ok (rg', es) -> In (im_file im) (reg_files rg) ->
+  link_base_of (reg_link rg) (im_file im) = im_min_vaddr im ->
+  image_ok maps im g = true ->
+  relocate_to_segment rg' g (im_file im) =
+  match spec_runtime_addr maps im g with
+  | Some a => if a <? USIZE_LIMIT then Ok a else Panic 10
+  | None => Err E_MAPPING_OFFSET_NOT_FOUND
+  end.
+Proof. exact relocate_exact. Qed.
+
+Theorem C18_relocate_sound : forall rg maps rg' es im g a,
+  update_mappings rg false maps = Ok (rg', es) -> In (im_file im) (reg_files rg) ->
+  link_base_of (reg_link rg) (im_file im) = im_min_vaddr im ->
+  image_ok maps im g = true ->
+  relocate_to_segment rg' g (im_file im) = Ok a ->
+  spec_runtime_addr maps im g = Some a.
+Proof. exact relocate_sound. Qed.
+
+(* the offset recorded by update_mappings *)
+Theorem C18_update_mappings_offset : forall rg maps rg' es f,
+  update_mappings rg false maps = Ok (rg', es) -> In f (reg_files rg) ->
+  mapping_get (reg_mappings rg') f = bias_of (reg_link rg) maps f.
+Proof. exact update_mappings_offset. Qed.
 
 (* find_range never panics / runs out of fuel on a registry sorted by `from` *)
 Theorem C18_find_range_total : forall l a, sorted_from l -> exists o, find_range l a = Ok o.
 Proof. exact find_range_total. Qed.
 
-(* an address strictly inside a recorded object (from <= a < to) is attributed to it, also
-   when the previous object ends exactly there *)
-Theorem C18_find_range_partial : forall l a r, wf_ranges l = true ->
-  In r l -> r_from r <= a < r_to r -> find_range l a = Ok (Some r).
-Proof. exact find_range_partial. Qed.
-
-(* model = specification whenever the address is not the (exclusive) end of an object *)
-Theorem C18_find_range_exact_partial : forall l a, wf_ranges l = true -> no_to_at a l = true ->
+(* the object an address belongs to: model = specification (the unique object whose
+   half-open image contains it) on every registry with sorted, disjoint ranges *)
+Theorem C18_find_range_exact : forall l a, wf_ranges l = true ->
   find_range l a = Ok (spec_find_range l a).
-Proof. exact find_range_exact_partial. Qed.
+Proof. exact find_range_exact. Qed.
 
-(* `addr <= range.to`: one byte past an object is still attributed to it *)
-Theorem C18_find_range_refuted : exists l a r,
-  wf_ranges l = true /\ spec_find_range l a = None /\ find_range l a = Ok (Some r).
-Proof. exact find_range_refuted. Qed.
+Theorem C18_spec_find_range_unique : forall l a r, wf_ranges l = true ->
+  In r l -> r_from r <= a < r_to r -> spec_find_range l a = Some r.
+Proof. exact spec_find_range_unique. Qed.
 
 (* Global -> Relocated -> Global is the identity when the relocated address lies in the
-   object it was relocated for *)
+   object it was relocated for (FULL statement without the side condition is false: the
+   address then belongs to another object or to none) *)
 Theorem C18_roundtrip_partial : forall rg g file a,
   relocate_to_segment rg g file = Ok a -> lands_in_file rg file a = true ->
   into_global rg a = Ok g.
 Proof. exact roundtrip_partial. Qed.
-
-(* the offset recorded by update_mappings is the start of the file's lowest mapping ... *)
-Theorem C18_update_mappings_offset : forall rg maps rg' es f,
-  update_mappings rg false maps = Ok (rg', es) -> In f (reg_files rg) ->
-  mapping_get (reg_mappings rg') f = lowest_start maps f.
-Proof. exact update_mappings_offset. Qed.
-
-(* ... which is the right load bias for objects linked at 0 (PIE, shared libraries, whether
-   loaded at start or by dlopen) ... *)
-Theorem C18_relocate_pie_partial : forall rg maps rg' es im g a,
-  update_mappings rg false maps = Ok (rg', es) -> In (im_file im) (reg_files rg) ->
-  im_min_vaddr im = 0 ->
-  relocate_to_segment rg' g (im_file im) = Ok a ->
-  spec_runtime_addr maps im g = Some a.
-Proof. exact relocate_pie_partial. Qed.
-
-(* ... and wrong by the link base for a non-PIE executable *)
-Theorem C18_nonpie_refuted : exists im maps g rg' es,
-  update_mappings (mk_registry (im_file im) [im_file im] [] []) false maps = Ok (rg', es) /\
-  relocate_to_segment rg' g (im_file im) = Ok 8393014 /\
-  spec_runtime_addr maps im g = Some 4198710.
-Proof. exact nonpie_refuted. Qed.
 
 (* `sharedlib info` *)
 Theorem C18_dump_exact : forall rg maps rg' es,
@@ -65,48 +68,60 @@ Theorem C18_reload_files : forall parse_ok rg libs f,
   (In f (reg_files rg) /\ (In f libs \/ f = reg_main rg)) \/ (In f libs /\ parse_ok f = true).
 Proof. exact reload_files. Qed.
 
-(* deferred breakpoints over r_brk events: installed at the first event that makes them
-   installable, removed from the list there, never again *)
-Theorem C18_deferred_partial : forall rs idx ds ds' lg,
-  forallb is_linker rs = true ->
+(* deferred breakpoints, every sequence of entry-point / r_brk stops: installed at the first
+   event that makes them installable, removed from the list there, never again *)
+Theorem C18_deferred : forall rs idx ds ds' lg,
   run_rounds idx rs ds = (ds', lg) ->
   (forall d, In d ds' <-> In d ds /\ first_ok idx rs d = None) /\
   (forall i d a, In (i, d, a) lg <-> In d ds /\ first_ok idx rs d = Some (i, a)).
-Proof. exact deferred_partial. Qed.
+Proof. exact deferred. Qed.
 
 Theorem C18_deferred_once : forall rs idx ds ds' lg,
   NoDup ds -> run_rounds idx rs ds = (ds', lg) -> NoDup (map req_of lg).
 Proof. exact deferred_once. Qed.
 
-(* a library already present at the entry-point stop (DT_NEEDED) does not activate the
-   deferred request *)
-Theorem C18_deferred_startup_refuted : exists rg1,
-  update_debug_info_registry (fun _ => true) startup_rg [1] startup_maps = Ok rg1 /\
-  try_set_breakpoint startup_resolve (fun _ => true) rg1 5 = AInstalled [140737351860544] /\
-  run_events startup_resolve (fun _ => true) (fun _ => true) startup_rg
-             [(EvEntry, [1], startup_maps)] [5] = Ok ([5], []).
-Proof. exact deferred_startup_refuted. Qed.
+Theorem C18_run_events_rounds : forall resolve poke_ok parse_ok rg evs ds r,
+  run_events resolve poke_ok parse_ok rg evs ds = Ok r ->
+  exists rs, rounds_of resolve poke_ok parse_ok rg evs = Ok rs /\ r = run_rounds 0 rs ds /\
+             map fst rs = map (fun e => fst (fst e)) evs.
+Proof. exact run_events_rounds. Qed.
 
-(* non-vacuity: a PIE main program and a library, an address inside the library *)
+(* non-vacuity: a PIE main program and a library, an address inside the library; a non-PIE
+   executable; a start-up library with a deferred request *)
 Example C18_example :
-  let rg := mk_registry 0 [0; 1] [mk_rrange 4096 8192 0; mk_rrange 8192 12288 1] [(0, 4096); (1, 8192)] in
+  let rg := mk_registry 0 [0; 1] [mk_rrange 4096 8192 0; mk_rrange 8192 12288 1] [(0, 4096); (1, 8192)] [] in
   relocate_to_segment rg 16 1 = Ok 8208 /\ lands_in_file rg 1 8208 = true /\ into_global rg 8208 = Ok 16.
 Proof. vm_compute. repeat split; reflexivity. Qed.
 
+Example C18_example_nonpie :
+  image_ok nonpie_maps (mk_image 0 4194304) 4198710 = true /\
+  exists rg' es,
+    update_mappings (mk_registry 0 [0] [] [] [(0, 4194304)]) false nonpie_maps = Ok (rg', es) /\
+    relocate_to_segment rg' 4198710 0 = Ok 4198710 /\
+    spec_runtime_addr nonpie_maps (mk_image 0 4194304) 4198710 = Some 4198710.
+Proof. exact relocate_nonpie_applies. Qed.
+
+Example C18_example_deferred_startup :
+  run_events startup_resolve (fun _ => true) (fun _ => true) startup_rg
+             [(EvEntry, [1], startup_maps)] [5] = Ok ([], [(0%nat, 5, [140737351860544])]).
+Proof. exact deferred_startup_ok. Qed.
+
 Example C18_example_cases :
   reloc_check (mk_reloc_case [mk_rrange 4096 8192 0; mk_rrange 8192 12288 1] [(0, 4096); (1, 8192)] 8192 (Some 8192)) = 0 /\
+  reloc_check (mk_reloc_case [mk_rrange 4096 8192 0] [(0, 4096)] 8192 None) = 0 /\
   reloc_check (mk_reloc_case [mk_rrange 4096 8192 0] [(0, 4096)] 8192 (Some 4096)) = 2 /\
   maps_check (mk_maps_case 0 [0; 1] [mk_pmap (Some 0) 4096 4096; mk_pmap None 8192 4096] [(0, Some (4096, 8192)); (1, None)]) = 0 /\
-  relocate_check (mk_relocate_case (mk_image 0 4194304) nonpie_maps 4198710 (Some 8393014)) = 2 /\
-  relocate_check (mk_relocate_case (mk_image 0 4194304) nonpie_maps 4198710 (Some 4198710)) = 1.
+  relocate_check (mk_relocate_case (mk_image 0 4194304) nonpie_maps 4198710 (Some 4198710)) = 0 /\
+  relocate_check (mk_relocate_case (mk_image 0 4194304) nonpie_maps 4198710 (Some 8393014)) = 2.
 Proof. vm_compute. repeat split; reflexivity. Qed.
 
-Print Assumptions C18_find_range_partial.
-Print Assumptions C18_find_range_exact_partial.
+Print Assumptions C18_relocate_exact.
+Print Assumptions C18_relocate_sound.
+Print Assumptions C18_find_range_exact.
+Print Assumptions C18_find_range_total.
 Print Assumptions C18_roundtrip_partial.
-Print Assumptions C18_relocate_pie_partial.
-Print Assumptions C18_nonpie_refuted.
 Print Assumptions C18_dump_exact.
-Print Assumptions C18_deferred_partial.
+Print Assumptions C18_reload_files.
+Print Assumptions C18_deferred.
 Print Assumptions C18_deferred_once.
-Print Assumptions C18_deferred_startup_refuted.
+Print Assumptions C18_run_events_rounds.
